@@ -712,6 +712,13 @@ def build_cache(case):
                 vals = [block([None if v is None else (Fr(v[0]), Fr(v[1])) for v in s[1]], idx, dtype, 3 + int(pn))
                         for s in samples]
             cache['%s_product_%s%s' % (sname, case['ptype'], pn if case['n_parts'] else '')] = raw_sensor(ts, vals)
+    if case.get('decoy'):
+        # a sensor under the OTHER naming: unsuffixed although the stream has product_<type>_parts, or suffixed 0
+        # although it has not - it must not be read
+        dts = [s[0] for s in case['decoy']]
+        dvals = [block([None if v is None else (Fr(v[0]), Fr(v[1])) for v in s[1]], idx, dtype, 7) for s in case['decoy']]
+        for sname in case['substreams']:
+            cache['%s_product_%s%s' % (sname, case['ptype'], '' if case['n_parts'] else '0')] = raw_sensor(dts, dvals)
     sc = SensorCache(cache, timestamps=np.arange(N, dtype=float), dump_period=1., props=SENSOR_PROPS, virtual={})
     nchan = case['cal_chans']
     attrs = dict(ATTRS0, center_freq=float(case['cal_centre']), bandwidth=float(nchan * case['cal_width']),
@@ -735,7 +742,22 @@ def check_stitch(ctx, case):
         return [[q(s[0]), [wire_opv(None if v is None else (Fr(v[0]), Fr(v[1]))) for v in s[1]]] for s in samples]
     # model: per part every substream's samples (or absent); the rule "a substream lacking the part makes the part
     # absent", the merge of the substreams and the stitching are all in the model (stitch_substreams)
-    if nparts:
+    decoy = [wire_samples(case['decoy'])] if case.get('decoy') else []
+    if len(subs) == 1 and (nparts or decoy):
+        # one substream: the model also decides WHICH sensors are read from the parts attribute (indirect_product)
+        if nparts:
+            w = [144, [2, [nparts], decoy, [[wire_samples(subs[0][str(pn)])] if str(pn) in subs[0] else []
+                                            for pn in range(nparts)]]]
+        else:
+            w = [144, [2, [], [wire_samples(subs[0]['0'])], [decoy]]]
+        mo = ctx.model([w])[0]
+        mo = None if not mo else mo[0]
+        if nparts:
+            m61 = ctx.model([[14, [61, [[[wire_samples(subs[0][str(pn)])] if str(pn) in subs[0] else []] for pn in range(nparts)]]]])[0]
+            if (None if not m61 else m61[0]) != mo:
+                ctx.disagree('kind=stitch;parts=multi;symptom=model_parts_attribute', case, None, mo,
+                             'indirect_product differs from stitch_substreams of the numbered parts', kind='tie')
+    elif nparts:
         parts = [[[wire_samples(sub[str(pn)])] if str(pn) in sub else [] for sub in subs] for pn in range(nparts)]
         mo = ctx.model([[14, [61, parts]]])[0]
         mo = None if not mo else mo[0]
@@ -769,7 +791,7 @@ def check_stitch(ctx, case):
     if bad:
         missing = [pn for pn in range(nparts or 0) if not any(str(pn) in sub for sub in subs)]
         sig = 'kind=stitch;parts=%s;missing=%s;substreams=%d;symptom=%s' % (
-            'multi' if nparts else 'single', 'last' if missing and missing[-1] == (nparts or 0) - 1 else
+            ('one' if nparts == 1 else 'multi' if nparts else 'single') + (';decoy_sensor' if case.get('decoy') else ''), 'last' if missing and missing[-1] == (nparts or 0) - 1 else
             'some' if missing else 'none', len(subs), bad)
         ctx.disagree(sig, case, None if got is None else [[str(t), show(v)] for t, v in got][:6],
                      None if mo is None else mo[:6],
@@ -780,6 +802,8 @@ def check_stitch(ctx, case):
     ctx.note_case(('S', repr(case)), nontrivial=nmiss >= 1 or len(subs) > 1, sample=case if case['N'] <= 4 else None)
     ctx.count('stitch:parts=%d' % (nparts or 0))
     ctx.count('stitch:substreams=%d' % len(subs))
+    if case.get('decoy'):
+        ctx.count('stitch:decoy_sensor:parts=%d' % (nparts or 0))
     return sc
 
 
@@ -812,7 +836,11 @@ def gen_stitch(rng):
             sub[str(pn)] = [[t, [None if v is None else [str(v[0]), str(v[1])] for v in vals[i * per:(i + 1) * per]]]
                             for i, t in enumerate(mine)]
         subs.append(sub)
-    return dict(kind='stitch', N=N, ptype=rng.choice(['B', 'G', 'GPHASE']) if not nparts else 'B',
+    decoy = None
+    if rng.random() < 0.4:
+        dv = gen_values(rng, nchan, True)
+        decoy = [[rng.randrange(N), [[str(v[0] * 7), str(v[1])] for v in dv]]]
+    return dict(kind='stitch', N=N, ptype=rng.choice(['B', 'G', 'GPHASE']) if not nparts else 'B', decoy=decoy,
                 n_parts=nparts, substreams=['cal'] if nsub == 1 else ['sc_a', 'sc_b'], data=subs,
                 cal_chans=nchan, cal_centre=rng.choice([100, 856]), cal_width=rng.choice([1, 2]),
                 data_freqs=[str(Fr(100 + k, 2)) for k in range(4)], dtype=np.dtype(dtype).name,
@@ -1016,7 +1044,9 @@ def request_form(req, streams):
 
 def normalise_cases(ctx):
     atoms = ['l1', 'l2', 'K', 'B', 'G', 'GPHASE', 'GAMP_PHASE', 'l1.K', 'l1.G', 'l2.GPHASE', 'l2.GAMP_PHASE',
-             'l3', 'l3.G', 'foo', 'l1.FOO', 'all', 'default', '', ' l1', 'G ', 'l1.', '.', 'g']
+             'l3', 'l3.G', 'foo', 'l1.FOO', 'all', 'default', '', ' l1', 'G ', 'l1.', '.', 'g',
+             # near misses: substrings / superstrings / other case of a stream or type must NOT match
+             'l', '1', 'l11', 'L1', 'GPH', 'PHASE', 'GAMP', 'KB', 'l1l2', 'l1G', 'a.b.G', 'l1..G', 'AMP_PHASE', 'GG', 'al', 'defaul']
     reqs = ['', 'all', 'default'] + atoms
     for a, b in itertools.product(atoms, atoms):
         reqs.append(a + ',' + b)
@@ -1037,7 +1067,9 @@ def normalise_cases(ctx):
     return out
 
 
-STREAM_SETS = [[], ['l1'], ['l2'], ['l1', 'l2']]
+# besides what a data set offers: a stream named like a product type (the stream test comes first), a stream whose name
+# contains another's, a dotted stream name
+STREAM_SETS = [[], ['l1'], ['l2'], ['l1', 'l2'], ['l1', 'G'], ['l11', 'l1'], ['a.b', 'l1']]
 
 
 # ------------------------------------------------------------------ (P) which products get APPLIED
@@ -2021,12 +2053,341 @@ def gen_delivered(rng):
                 sols=sols, pairs=pairs, dtype=np.dtype(dtype).name)
 
 
+
+# ------------------------------------------------------------------ (P) WHICH solutions reach the calculators, and where
+GAIN_TYPES = ('G', 'GPHASE', 'GAMP_PHASE')
+
+
+def py_place(gain_like, ends, P, samples):
+    """the documented placement written independently: (event, sample index | None) list, or None (no value at all)"""
+    N = len(ends)
+    bounds = [ends[0] - P] + list(ends)
+    placed = []
+    for i, (t, _) in enumerate(samples):
+        k = sum(1 for e in bounds if e < t) - 1          # dump during which it was timestamped (-1: before, N: after)
+        if k >= N:
+            continue
+        placed.append((max(k, 0), i))
+    if gain_like and (not placed or placed[0][0] != 0):
+        placed.insert(0, (0, None))
+    if not placed:
+        return None
+    placed[0] = (0, placed[0][1])
+    return [pl for j, pl in enumerate(placed) if j + 1 == len(placed) or placed[j + 1][0] > pl[0]]
+
+
+def placed_shape(case):
+    a, N = case['a'], case['N']
+    ts = [Fr(s[0]) for s in case['samples']]
+    lo0, hi0, last = Fr(a) - Fr(1, 2), Fr(a) + Fr(1, 2), Fr(a + N) - Fr(1, 2)
+    dumps = [math.ceil(t - Fr(1, 2)) for t in ts if hi0 < t <= last]
+    tags = []
+    if any(t <= lo0 for t in ts):
+        tags.append('before_first')
+    if any(lo0 < t <= hi0 for t in ts):
+        tags.append('inside_first')
+    if len(dumps) != len(set(dumps)):
+        tags.append('several_per_dump')
+    if any(t > last for t in ts):
+        tags.append('late')
+    return '+'.join(tags) or 'own_dumps'
+
+
+def wire_tsamples(samples):
+    return [[q(Fr(s[0])), [wire_opv(None if v is None else (Fr(v[0]), Fr(v[1]))) for v in s[1]]] for s in samples]
+
+
+def parse_sols(x):
+    """wire: [] | [[[event, [] | [opvs]], ...]]"""
+    if not x:
+        return None
+    return [(e, None if not g else [parse_opv(v) for v in g[0]]) for e, g in x[0]]
+
+
+def check_placed(ctx, case):
+    """time-stamped solutions -> real SensorCache (its timestamps are the KEPT dumps of a `dumps` preselection) ->
+    Calibration/Products/cal/<type> (events, values) and Calibration/Corrections/cal/<type>/<input>"""
+    ptype, a, N = case['ptype'], case['a'], case['N']
+    idx = tuple(case['index'])
+    inp = [k for k, v in INPUTS.items() if v == idx][0]
+    dtype = np.dtype(case['dtype'])
+    samples = case['samples']
+    gain_like = ptype in GAIN_TYPES
+    ts = [float(Fr(s[0])) for s in samples]
+    # the other inputs' gains: a value per solution, the SAME for a solution that repeats the previous one (whole arrays equal)
+    fills = []
+    for k, s in enumerate(samples):
+        fills.append(fills[-1] if k and s[1] == samples[k - 1][1] else 3 + k)
+    vals = [block([None if v is None else (Fr(v[0]), Fr(v[1])) for v in s[1]], idx, dtype, fills[k])
+            for k, s in enumerate(samples)]
+    if ptype in ('G', 'GPHASE', 'GAMP_PHASE') and case['chans'] == 0:
+        vals = [v[0] for v in vals]
+    cache = {'cal_product_' + ptype: raw_sensor(ts, vals)}
+    sc = SensorCache(cache, timestamps=np.arange(a, a + N, dtype=float), dump_period=1., props=SENSOR_PROPS, virtual={})
+    tg = case['per_dump']
+    ev = [0] + [d for d in range(1, N) if tg[d] != tg[d - 1]]
+    sc['Observation/target'] = CategoricalData([tg[e] for e in ev], ev + [N])
+    nchan = max(case['chans'], 1)
+    attrs = dict(ATTRS0, center_freq=100.0, bandwidth=float(nchan), n_chans=nchan)
+    add_applycal_sensors(sc, attrs, np.array([99.5, 100.5]), 'cal', gaincal_flux=None)
+    ends = [Fr(a + k) + Fr(1, 2) for k in range(N)]
+    want = py_place(gain_like, ends, Fr(1), [(Fr(s[0]), s[1]) for s in samples])
+    shape = placed_shape(case)
+    sig0 = 'kind=placed;type=%s;presel=%s;history=%s' % (ptype if gain_like else 'KB', a > 0, shape)
+    mo = sp = None
+    if ctx.model_ok:
+        try:
+            r144 = ctx.model([[144, [0, codes(ptype), [q(e) for e in ends], q(Fr(1)), wire_tsamples(samples)]]])[0]
+            if not (isinstance(r144, list) and len(r144) == 2 and all(isinstance(b, list) for b in r144)):
+                raise KeyError('wire 144 not available')
+            mo, sp = [parse_sols(x) for x in r144]
+        except Exception:       # noqa: BLE001 - wire left out of a partial driver: the Python spec still decides
+            mo = sp = None
+    crashed = None
+    try:
+        prod = get_cal_product(sc, 'cal', ptype)
+        segs = cat_segments(prod)
+    except Exception as e:       # noqa: BLE001
+        segs, crashed = None, 'raises:' + type(e).__name__
+    bad = None
+    if want is None:
+        if segs is not None:
+            bad = None            # no solution at or before the last dump and no initial value: not constrained
+    elif crashed:
+        bad = crashed
+    else:
+        def expand(evs, value_of):
+            out, j = [], -1
+            for d in range(N):
+                while j + 1 < len(evs) and evs[j + 1][0] <= d:
+                    j += 1
+                out.append(value_of(evs[j][1]))
+            return out
+        got_evs = [(e, v) for e, v in segs]
+        if gain_like:
+            if [e for e, _ in got_evs] != [e for e, _ in want]:
+                bad = 'events'
+            else:
+                for (e, v), (_, i) in zip(got_evs, want):
+                    if (i is None) != (v is INVALID_GAIN):
+                        bad = 'placeholder'
+                    elif i is not None and not same_array(np.atleast_1d(np.asarray(v)[(Ellipsis,) + idx]),
+                                                          [None if x is None else (Fr(x[0]), Fr(x[1])) for x in samples[i][1]]):
+                        bad = 'values'
+        else:
+            gw = expand(want, lambda i: i)
+            gg = expand(got_evs, lambda v: v)
+            for d in range(N):
+                if not same_array(np.atleast_1d(np.asarray(gg[d])[(Ellipsis,) + idx]),
+                                  [None if x is None else (Fr(x[0]), Fr(x[1])) for x in samples[gw[d]][1]]):
+                    bad = 'value_per_dump'
+    if bad:
+        ctx.disagree(sig0 + ';symptom=product_' + bad, case,
+                     None if segs is None else [[e, 'INVALID' if v is INVALID_GAIN else show(np.atleast_1d(np.asarray(v)[(Ellipsis,) + idx]))]
+                                                for e, v in segs][:8], mo,
+                     'the cal product sensor does not hold, per dump, the last solution timestamped during it (the first dump: '
+                     'at or before its end), starting from INVALID for gain types', spec=want)
+    if mo is not None and want is not None:
+        mw = [(e, None if i is None else [None if x is None else (Fr(x[0]), Fr(x[1])) for x in samples[i][1]]) for e, i in want]
+        for name, m in (('model', mo), ('spec', sp)):
+            if m is None or [(e, g) for e, g in m] != mw:
+                ctx.disagree(sig0 + ';symptom=%s_placement_not_documented' % name, case, None, m,
+                             'Coq %s placement differs from the independent Python statement of the documented rule' % name,
+                             spec=[[e, i] for e, i in want], kind='tie')
+    # the correction sensor of the gain types against spec and model
+    if gain_like and want is not None and not crashed:
+        with warnings.catch_warnings():
+            warnings.simplefilter('ignore')
+            try:
+                out = np.asarray(sc.get('Calibration/Corrections/cal/%s/%s' % (ptype, inp)))
+            except Exception as e:       # noqa: BLE001
+                out = None
+                ctx.disagree(sig0 + ';symptom=correction_raises:' + type(e).__name__, case, repr(e)[:200], None,
+                             'the correction sensor of an in-domain solution history raises')
+        if out is not None:
+            selfcal = ptype != 'G'
+            # solutions as the DOCUMENTED placement gives them; interpolation by the Coq spec (wire 24) / model (wire 4)
+            sols = [None if i is None else samples[i][1] for _, i in want]
+            events = [e for e, _ in want]
+            payload = [N, wire_sols(sols, events), [tg] if selfcal else []]
+            g = dict(N=N, events=events, sols=sols, targets=tg if selfcal else None)
+            if ctx.model_ok:
+                spo, moo = ctx.model([[14, [24] + payload], [14, [4] + payload]])
+                spo = [[parse_opv(e) for e in row] for row in spo]
+                pos, sym = gain_symptom(g, out, spo)
+                if sym:
+                    ctx.disagree(sig0 + ';symptom=correction_%s@%s' % (sym, pos), case, show(out),
+                                 show_m(itertools.chain(*spo)),
+                                 'gain correction per kept dump is not the inverted interpolation of the solutions placed by '
+                                 'the documented rule (last solution at or before the end of the first kept dump held from '
+                                 'dump 0 on)', spec=show_m(itertools.chain(*spo)))
+                try:
+                    both = ctx.model([[144, [1, codes(ptype), [q(e) for e in ends], q(Fr(1)), wire_tsamples(samples),
+                                             [tg] if selfcal else []]]])[0]
+                    if not (isinstance(both, list) and len(both) == 2 and all(isinstance(b, list) for b in both)):
+                        raise KeyError('wire 144 not available')
+                    for name, rows in (('model', both[0]), ('spec', both[1])):
+                        rows = [[parse_opv(e) for e in row] for row in rows[0]] if rows else None
+                        pos, sym = (None, 'none') if rows is None else gain_symptom(g, out, rows)
+                        if sym:
+                            ctx.disagree(sig0 + ';symptom=%s_chain_%s@%s' % (name, sym, pos), case, show(out),
+                                         None if rows is None else show_m(itertools.chain(*rows)),
+                                         'placement + gain interpolation of the Coq %s differs from katdal' % name,
+                                         kind='tie' if name == 'model' else 'property')
+                except (KeyError, RuntimeError):
+                    pass
+    ctx.traces_validated += 1
+    ctx.note_case(('P', repr(case)), nontrivial=shape != 'own_dumps', sample=case if N <= 3 else None)
+    ctx.count('placed:' + ('gain' if gain_like else 'KB'))
+    ctx.count('placed:history=' + shape)
+    ctx.count('placed:presel=%s' % (a > 0))
+    if any(k and s[1] == samples[k - 1][1] for k, s in enumerate(samples)):
+        ctx.count('placed:repeated_solution')
+
+
+def gen_placed(rng):
+    a = rng.choice([0, 0, 1, 3, 5])
+    N = rng.randint(1, 7)
+    ptype = rng.choice(['G', 'G', 'GPHASE', 'GAMP_PHASE', 'K', 'B'])
+    chans = rng.choice([0, 1, 2]) if ptype in GAIN_TYPES else (0 if ptype == 'K' else rng.randint(1, 3))
+    # times in quarter dumps from 3 dumps before the first kept dump to 2 after the last; dump k covers (k-1/2, k+1/2]
+    pool = [Fr(4 * a - 14 + j, 4) for j in range(4 * (N + 5))]
+    k = rng.randint(1, min(6, len(pool)))      # an EMPTY telstate sensor does not exist (a key has >= 1 sample)
+    style = rng.random()
+    if style < 0.25:                          # crowd the first kept dump: before it, on its edges, inside it
+        pool = [t for t in pool if t <= Fr(a) + Fr(3, 4)]
+        k = min(max(k, 2), len(pool))
+    times = sorted(rng.sample(pool, k))
+    per = max(chans, 1)
+    cols = [gen_values(rng, len(times), True) for _ in range(per)]
+    samples = []
+    for i, t in enumerate(times):
+        row = [None if rng.random() < 0.15 else [str(cols[c][i][0] * (1 + Fr(i, 16))), str(cols[c][i][1])] for c in range(per)]
+        if samples and rng.random() < 0.15:
+            row = list(samples[-1][1])          # a solution that REPEATS the previous one is a solution in its own right
+        samples.append([str(t), row])
+    return dict(kind='placed', ptype=ptype, a=a, N=N, chans=chans, samples=samples, dtype='complex64',
+                index=[rng.randint(0, 1), rng.randint(0, 1)], per_dump=[t % 3 for t in gen_targets(rng, N)])
+
+
+def check_presel(ctx, case):
+    """the same through a real data set: VisibilityDataV4(applycal=..., preselect=dict(dumps=slice(a, b))) and
+    d.sensor['Calibration/Corrections/l1/G/<input>'] on the kept dumps"""
+    from fixtures import v4
+    from fixtures.c14streams import streams_hook
+    isolate_templates()
+    T, a, b = case['T'], case['a'], case['b']
+    N = b - a
+    sols = case['solutions']
+    tel = [dict(name='cal', type='sdp.cal', targets=None, ants=list(case['ants']), pols=['v', 'h'], spectral=True,
+                n_chans=1, types=[], solutions={'G': sols})]
+    v = v4.build_v4(T=T, F=2, ants=tuple(case['ants']), telstate_hook=streams_hook(tel),
+                    targets=((0, GTARGET % 'gaincal1'),), archived_override=['sdp_l0', 'cal'], construct=False,
+                    tmp=v4.scratch_dir('c14'))
+    sig0 = 'kind=presel;type=G;presel=%s;history=%s' % ((a, b) != (0, T), placed_shape(
+        dict(a=a, N=N, samples=[[s[0], None] for s in sols])))
+    try:
+        kw = {} if (a, b) == (0, T) and not case.get('explicit') else dict(preselect=dict(dumps=slice(a, b)))
+        d = v4.reopen(v, source_kwargs=kw, open_kwargs=dict(applycal=case['request'], gaincal_flux=None))
+        samples = [[s[0], [[s[1], s[2]]]] for s in sols]
+        ends = [Fr(a + k) + Fr(1, 2) for k in range(N)]
+        want = py_place(True, ends, Fr(1), [(Fr(s[0]), s[1]) for s in samples])
+        wsols = [None if i is None else samples[i][1] for _, i in want]
+        events = [e for e, _ in want]
+        g = dict(N=N, events=events, sols=wsols, targets=None)
+        with warnings.catch_warnings():
+            warnings.simplefilter('ignore')
+            try:
+                out = np.asarray(d.sensor['Calibration/Corrections/l1/G/' + case['probe']])
+            except Exception as e:       # noqa: BLE001
+                out = None
+                ctx.disagree(sig0 + ';symptom=correction_raises:' + type(e).__name__, case, repr(e)[:200], None,
+                             'the L1 gain correction of a preselected data set raises')
+        if out is not None and ctx.model_ok:
+            spo = ctx.model([[14, [24, N, wire_sols(wsols, events), []]]])[0]
+            spo = [[parse_opv(e) for e in row] for row in spo]
+            pos, sym = gain_symptom(g, out, spo)
+            if sym:
+                ctx.disagree(sig0 + ';symptom=correction_%s@%s' % (sym, pos), case, show(out), show_m(itertools.chain(*spo)),
+                             'L1 gain correction on the kept dumps is not the inverted interpolation of the solutions placed by '
+                             'the documented rule (the last solution at or before the end of the first KEPT dump held from '
+                             'its start)', spec=show_m(itertools.chain(*spo)))
+            try:
+                both = ctx.model([[144, [1, codes('G'), [q(e) for e in ends], q(Fr(1)), wire_tsamples(samples), []]]])[0]
+                if not (isinstance(both, list) and len(both) == 2 and isinstance(both[0], list) and both[0]):
+                    raise KeyError('wire 144 not available')
+                rows = [[parse_opv(e) for e in row] for row in both[0][0]]
+                pos, sym = gain_symptom(g, out, rows)
+                if sym:
+                    ctx.disagree(sig0 + ';symptom=model_chain_%s@%s' % (sym, pos), case, show(out),
+                                 show_m(itertools.chain(*rows)), 'placement + interpolation of the model differs', kind='tie')
+            except (KeyError, RuntimeError):
+                pass
+        if list(d.applycal_products) != (['l1.G'] if case['request'] else []):
+            ctx.disagree(sig0 + ';symptom=applied_products', case, list(d.applycal_products), ['l1.G'],
+                         'applycal_products of a preselected data set')
+    finally:
+        v4.cleanup(v)
+    ctx.traces_validated += 1
+    ctx.note_case(('Q', repr(case)), nontrivial=True, sample=None)
+    ctx.count('presel:dumps=%s' % ('all' if (a, b) == (0, T) else 'tail' if b == T else 'head' if a == 0 else 'middle'))
+
+
+def gen_presel(rng):
+    T = rng.randint(3, 7)
+    a = rng.choice([0, 0, 1, 2, T - 1])
+    b = rng.randint(a + 1, T)
+    if rng.random() < 0.3:
+        b = T
+    pool = [Fr(-10 + j, 4) for j in range(4 * (T + 4))]
+    times = sorted(rng.sample(pool, rng.randint(1, 5)))
+    vals = gen_values(rng, len(times), True)
+    sols = [[str(t), str(vals[i][0] * (1 + Fr(i, 16))), str(vals[i][1])] for i, t in enumerate(times)]
+    ants = ['m000', 'm001'][:rng.randint(1, 2)]
+    return dict(kind='presel', T=T, a=a, b=b, solutions=sols, ants=ants, probe=rng.choice(ants) + rng.choice('hv'),
+                request=rng.choice(['l1.G', 'G', 'default', '']), explicit=rng.random() < 0.5)
+
+
+
+def check_parse(ctx, names):
+    """applycal._parse_cal_product on every given string against the model (split at the LAST dot; no dot: ValueError)"""
+    from katdal.applycal import _parse_cal_product
+    outs = ctx.model([[144, [3, codes(n)]] for n in names]) if ctx.model_ok else [None] * len(names)
+    for n, mo in zip(names, outs):
+        want = tuple(n.rsplit('.', 1)) if '.' in n else None
+        try:
+            got = tuple(_parse_cal_product(n))
+        except ValueError:
+            got = None
+        shape = 'no_dot' if '.' not in n else 'one_dot' if n.count('.') == 1 else 'several_dots'
+        case = dict(kind='parse', names=[n])
+        if got != want:
+            ctx.disagree('kind=parse;name=%s;symptom=%s' % (shape, 'error' if (got is None) != (want is None) else 'halves'),
+                         case, got, None, '<stream>.<type> is not split at its last dot', spec=want)
+        if mo is not None:
+            m = None if not mo else tuple(''.join(chr(c) for c in x) for x in mo)
+            if m != want:
+                ctx.disagree('kind=parse;name=%s;symptom=model' % shape, case, got, m, 'model of _parse_cal_product', spec=want,
+                             kind='tie')
+        ctx.traces_validated += 1
+        ctx.note_case(('PP', n), nontrivial=n.count('.') >= 1, sample=None)
+        ctx.count('parse:' + shape)
+
+
+def parse_names():
+    out = ['l1.G', 'l2.GPHASE', 'l1', 'cal.x.G', 'l1..G', '.G', 'l1.', '.', '..', 'sdp.cal.l1.GAMP_PHASE', '']
+    for n in range(0, 5):
+        out += [''.join(t) for t in itertools.product('.aG', repeat=n)]
+    return sorted(set(out))
+
+
 # ------------------------------------------------------------------ driver
 
 CHECKS = {'unwrap': lambda ctx, c: check_unwrap(ctx, [Fr(p) for p in c['phases']]), 'cinterp': check_cinterp,
           'delay': check_delay, 'bandpass': check_bandpass, 'gain': check_gain, 'flux': check_flux,
           'stitch': check_stitch, 'e2e': check_end_to_end, 'select': check_select, 'products': check_products,
           'opened': check_opened, 'two_sets': check_two_sets, 'delivered': check_delivered,
+          'placed': check_placed, 'presel': check_presel, 'parse': lambda ctx, c: check_parse(ctx, c['names']),
           'normalise': lambda ctx, c: check_normalise(ctx, c['request'] if isinstance(c['request'], str)
                                                       else list(c['request']), c['streams'])}
 
@@ -2066,6 +2427,8 @@ def run(ctx):
     timed('delay', lambda: many(ctx.scale(100, 1500), check_delay, gen_delay))
     timed('bandpass', lambda: many(ctx.scale(250, 4000), check_bandpass, gen_bandpass))
     timed('gain', lambda: many(ctx.scale(400, 7000), check_gain, gen_gain))
+    timed('placed', lambda: many(ctx.scale(500, 8000), check_placed, gen_placed))
+    timed('presel', lambda: many(ctx.scale(30, 300), check_presel, gen_presel))
     timed('flux', lambda: many(ctx.scale(150, 2500), check_flux, gen_flux))
     timed('stitch', lambda: many(ctx.scale(150, 2500), check_stitch, gen_stitch))
     timed('e2e', lambda: many(ctx.scale(100, 1500), check_end_to_end, gen_end_to_end))
@@ -2083,6 +2446,7 @@ def run(ctx):
         for (req, streams), mo in zip(todo, outs):
             check_normalise(ctx, req, streams, mo if mo else [])
     timed('normalise', normalise_all)
+    timed('parse', lambda: check_parse(ctx, parse_names()))
     ctx.extra['stage_seconds'] = stage
     ctx.extra['normalise_exhaustive_over'] = 'streams in {[], [l1], [l2], [l1,l2]} x %d request forms' % len(
         normalise_cases(ctx))
